@@ -201,7 +201,17 @@ impl TransformerContext {
 
         // TODO: move following to element::bbox() ?
         if el.name == "use" || el.name == "reuse" {
-            // assumes el has already had position & attributes resolved
+            // Until its layout attributes have been resolved to `x` / `y` (e.g. it is
+            // waiting on a target defined later) where it ends up is not known.
+            const UNRESOLVED_ATTRS: &[&str] = &[
+                "xy", "cxy", "xy1", "xy2", "xy-loc", "dxy", "dx", "dy", "cx", "cy", "x1", "y1",
+                "x2", "y2",
+            ];
+            if let Some(attr) = UNRESOLVED_ATTRS.iter().find(|a| el.has_attr(a)) {
+                return Err(SvgdxError::MissingBoundingBox(format!(
+                    "{el} ('{attr}' not yet resolved)"
+                )));
+            }
             let translate_x = el.get_attr("x");
             let translate_y = el.get_attr("y");
             if translate_x.is_some() || translate_y.is_some() {
